@@ -248,9 +248,14 @@ func DistMatrix(al align.Alignment, weights []float64, model DistModel, range1Mi
 		return
 	}
 
+	// If no distance could be computed, there is no maximum to derive a replacement from
+	replacement := 2 * max
+	if max == 0 {
+		replacement = math.NaN()
+	}
 	for _, sp := range uncompute {
-		outmatrix[sp.i][sp.j] = 2 * max
-		outmatrix[sp.j][sp.i] = 2 * max
+		outmatrix[sp.i][sp.j] = replacement
+		outmatrix[sp.j][sp.i] = replacement
 	}
 
 	return
